@@ -2,8 +2,9 @@ CONSTANTS
   StalePath = FALSE
   AllSiblings = FALSE
   EnterOnFocusIn = FALSE
+  StaleTarget = FALSE
   Depth = 4
-  Shapes = {"A", "B"}
+  Shapes = {"A", "B", "H"}
 SPECIFICATION Spec
 INVARIANTS Conforms RouteSane ChainSane HoverClosed
 CHECK_DEADLOCK FALSE
